@@ -146,6 +146,8 @@ where
             }
         }
 
+        // The last block added is the one at `height`.
+        tx_index.tip = height;
         tx_index
     }
 
@@ -179,10 +181,13 @@ where
 
         self.tx_in_block.insert(block_header.block_hash(), ks);
 
+        // The tip always points to the last block in the index, no matter if the index is full or being refilled
+        // (after some blocks have been disconnected).
+        self.tip += 1;
+
         if self.is_full() {
             // Avoid logging during bootstrap
             log::debug!("New block added to index: {}", block_header.block_hash());
-            self.tip += 1;
             self.remove_oldest_block();
         }
     }
@@ -201,6 +206,9 @@ where
         } else {
             log::warn!("The index is already empty");
         }
+
+        // In any case, the chain is one block shorter now.
+        self.tip -= 1;
     }
 
     /// Removes the oldest block from the index.
